@@ -32,7 +32,10 @@ def gen_members(rng, maxn=8):
                         # stored wall-clock times that do not exist, or exist twice, in some local zone (zip times carry no zone)
                         "date": rng.choice([[2021, 3, 28, 2, 30, 0], [2021, 10, 31, 2, 30, 0], [2021, 3, 14, 2, 30, 0], [2021, 11, 7, 1, 30, 0], [2020, 2, 29, 23, 59, 58]]) if special else [rng.choice([1980, 1999, 2020, 2024, 2037]), rng.choice([1, 3, 6, 11, 12]), rng.choice([1, 15, 28, 30]), rng.randrange(0, 24), rng.randrange(0, 60), rng.randrange(0, 30) * 2]})
     if rng.random() < 0.4 and "sub/" not in names:
-        members.append({"name": "sub/", "mode": rng.choice([0o40755, 0o40700, 0o41777]), "date": [2021, 3, 4, 5, 6, 8]})
+        # directory members as different tools store them: with the type bits, with permission bits only, without a unix mode
+        members.append({"name": "sub/", "mode": rng.choice([0o40755, 0o40700, 0o41777, 0o755, 0o700, None]), "date": [2021, 3, 4, 5, 6, 8]})
+    if rng.random() < 0.2 and "d d/" not in names:
+        members.append({"name": "d d/", "mode": rng.choice([0o755, 0o40755, None]), "date": [2022, 6, 15, 10, 0, 0]})
     return members
 
 
@@ -139,7 +142,8 @@ class Check:
                     isdir = m["name"].endswith("/")
                     size = 0 if isdir else (len(m["data"]) if "data" in m else m.get("size", 0))
                     d = m.get("date", [2020, 1, 2, 3, 4, 6])
-                    mode = statmod.filemode(m["mode"]) if m.get("mode") is not None else None
+                    # the mode string is asserted when the archive stores a unix mode *with* file-type bits
+                    mode = statmod.filemode(m["mode"]) if m.get("mode") is not None and (m["mode"] & 0o170000) else None
                     out.append((("[%s] %s" % (n["path"], m["name"])).encode("utf-8"), ("[%s] %s" % (n["path"].rsplit("/", 1)[-1], m["name"])).encode("utf-8"),
                                 str(size).encode(), b"true" if isdir else b"false", ("%04d-%02d-%02d %02d:%02d:%02d" % tuple(d)).encode(), mode.encode() if mode else None))
         return out
